@@ -140,6 +140,55 @@ def late_reply_traces(ctx, rng, n, modes):
     return traces, specs
 
 
+def abort_then_decode_traces(ctx, modes):
+    """A decode=True command fails right after a WRITE that ends in the middle of a character (the device falls silent);
+    the next decode=True command on the same object (also after close/connect) must decode only what its own stream wrote."""
+    traces, specs = [], []
+    k = 0
+    for api in ('shell', 'exec_out'):
+        for tail in ([2], [2, 3], [5], [1, 2, 4]):
+            for between in ([], [dict(api='reconnect')]):
+                for mode in modes:
+                    k += 1
+                    ops = [dict(api=api, decode=True, cmd='a%d' % k, chunks=[scen.syms_to_bytes([1] + tail).hex()], budget=2, read_timeout_s=1.0)] + [dict(b) for b in between] + \
+                          [dict(api=api, decode=True, cmd='b%d' % k, chunks=[scen.syms_to_bytes([1, 1]).hex(), scen.syms_to_bytes([3, 1]).hex()])]
+                    spec = dict(seed=ctx.seed + k, maxdata=4096, rid='plus', frag='whole', ops=ops, small=True)
+                    rr = scen.run(spec, mode)
+                    traces.append(scen.project_events(rr, spec, syms=True))
+                    specs.append((mode, spec))
+    return traces, specs
+
+
+def big_decode(ctx, modes):
+    """Outputs of several MiB with one 3-byte character straddling a multiple of 1 MiB (its first / second byte being the last byte
+    before the boundary).  By the Decode rule of AdbDecode the result is the ASCII run, the character, the ASCII run - whatever the size."""
+    n = 0
+    for mode in modes:
+        for mib in ((1, 4) if ctx.quick else (1, 2, 3, 4, 5, 8)):
+            for back in (1, 2):
+                boundary = mib * 1024 * 1024
+                pre = boundary - back
+                total = boundary + 2 * 1024 * 1024 // (2 if ctx.quick else 1)
+                data = b'a' * pre + b'\xe2\x82\xac' + b'a' * (total - pre - 3)
+                chunks = [data[i:i + 1024 * 1024] for i in range(0, len(data), 1024 * 1024)]
+                want = 'a' * pre + '\u20ac' + 'a' * (total - pre - 3)
+                dev = simdev.SimDevice()
+                dev.shell_scripts[b'shell:big'] = chunks
+                dev.shell_scripts[b'exec:big'] = chunks
+                sess = env.Session(mode, dev)
+                sess.call('connect')
+                for api in ('shell', 'exec_out'):
+                    o = sess.call(api, 'big', decode=True)
+                    n += 1
+                    if o.kind != 'ret' or o.value != want:
+                        got = o.value if o.kind == 'ret' else repr(o.exc)
+                        where = next((i for i, (x, y) in enumerate(zip(got, want)) if x != y), -1) if isinstance(got, str) else -1
+                        ctx.violation('C01.DecodeWholeVsEach', dict(kind='large output', mode=mode, api=api, total_bytes=total, character_starts_at=pre,
+                                                                    first_difference_at=where, got_length=len(got) if isinstance(got, str) else None))
+                sess.close_loop()
+    return n
+
+
 def body(ctx):
     rng = random.Random(ctx.seed)
     decode_table(ctx, 6 if ctx.quick else 7)
@@ -163,6 +212,12 @@ def body(ctx):
     t2, s2 = late_reply_traces(ctx, rng, 60 if ctx.quick else 600, ['sync', 'async'])
     traces += t2
     specs += s2
+    t3, s3 = abort_then_decode_traces(ctx, ['sync', 'async'])
+    traces += t3
+    specs += s3
+    ctx.count(evaluations=big_decode(ctx, ['sync', 'async']))
+    if ctx.violations:
+        return
     ver, r = tlc.validate_traces('TraceEnv', traces)
     ctx.add_tlc(r, 'TraceEnv random shell sessions')
     okn = 0
